@@ -136,6 +136,9 @@ func TestC08Env(t *testing.T) {
 	rep := vh.NewReport("C08", "failed requests on the wire (E-ENV)")
 	defer rep.Write()
 	maxDev := 2
+	if vh.Thorough() {
+		maxDev = 3
+	}
 	for _, sc := range []struct {
 		name string
 		conf rigConf
@@ -327,6 +330,9 @@ func c16Check(r *rig) (string, string, string) {
 
 func TestC16Env(t *testing.T) {
 	d := 2
+	if vh.Thorough() {
+		d = 3
+	}
 	scs := []envScenario{
 		esc("2 files, 1 thread, daemon", asDaemon(confOneThread()), nil),
 		esc("3 files, 2 threads, daemon", asDaemon(confTwoThreads()), nil),
@@ -347,7 +353,7 @@ func TestC16Env(t *testing.T) {
 			if oneShotNow {
 				out = nil // the one stop a Broker takes was issued right after start
 			}
-			if len(plan) == 0 {
+			if len(plan) <= d-2 {
 				switch kindOf(ev.Key) {
 				case "data":
 					out = append(out, pick(ev.Menu, "refuse", "gkfail:", "corrupt:", "down:60")...)
@@ -416,6 +422,9 @@ func c07Check(r *rig) (string, string, string) {
 
 func TestC07Env(t *testing.T) {
 	d := 2
+	if vh.Thorough() {
+		d = 3
+	}
 	scs := []envScenario{
 		esc("3 files, 2 threads, one-shot", confTwoThreads(), armC02),
 		esc("2 files, 1 thread, daemon", asDaemon(confOneThread()), armC02),
@@ -424,7 +433,13 @@ func TestC07Env(t *testing.T) {
 	runEnvProperty(t, "C07", "sender crash at every sender action (E-ENV)", scs, d,
 		func(ev vh.EnvEvent, plan []vh.Deviation) []string {
 			out := pick(ev.Menu, "crash")
-			if len(plan) == 0 && kindOf(ev.Key) == "data" {
+			faults := 0
+			for _, dv := range plan {
+				if dv.Do != "crash" {
+					faults++
+				}
+			}
+			if faults == 0 && kindOf(ev.Key) == "data" {
 				out = append(out, pick(ev.Menu, "gkfail:", "cut:", "lost", "refuse")...)
 			}
 			return out
